@@ -1,6 +1,7 @@
 import LoraVerif.Props.TieA.Basic
 import LoraVerif.Props.TieA.Rx1Offset
 import LoraVerif.Gen.MacStatic
+import LoraVerif.Lemmas.RtLemmas
 /-!
 # C10, tie A: RX2 defaults, RX1 data-rate-offset limits, receive delays, initial configuration
 
@@ -10,6 +11,7 @@ current source: the associated constants `DEFAULT_RX2_FREQ` / `MAX_RX1_DR_OFFSET
 type and the `RegionHandler` methods that read them (`Gen/RegionStatic.lean`), `Mac::get_rx_delay`
 and the `Configuration { .. }` literal of `Mac::new` (`Gen/MacStatic.lean`).
 -/
+set_option linter.unusedSimpArgs false
 namespace C10
 open Model TieA Gen.Region
 
@@ -36,12 +38,12 @@ theorem tieA_rxDelay (g : Gen.MacStatic.Configuration) (m : MacState) (d : DR) (
     Gen.MacStatic.Mac.get_rx_delay ⟨g⟩ (frameOf join) (windowOf second) = some (macRxDelay m join second : Int) := by
   have e1 : (Gen.MacStatic.Mac.new.configuration d).join_accept_delay1 = (Gen.Session.JOIN_ACCEPT_DELAY1.toNat : Int) := rfl
   have e2 : (Gen.MacStatic.Mac.new.configuration d).join_accept_delay2 = (Gen.Session.JOIN_ACCEPT_DELAY2.toNat : Int) := rfl
-  have hck : Rt.ck .u32 ((m.cfg.rx1Delay : Int) + 1000) = some ((m.cfg.rx1Delay : Int) + 1000) :=
-    Rt.ck_eq_some (by constructor <;> simp [Rt.ITy.lo, Rt.ITy.hi, Rt.ITy.signed, Rt.ITy.bits] <;> omega)
   cases join <;> cases second
   · simp only [frameOf, windowOf, Gen.MacStatic.Mac.get_rx_delay, macRxDelay, h1]; rfl
-  · simp only [frameOf, windowOf, Gen.MacStatic.Mac.get_rx_delay, macRxDelay, h1, hck]
-    simp
+  · -- the generated `rx1_delay + 1000` in whatever order the source writes it: one checked `u32` addition
+    simp (disch := omega) only [frameOf, windowOf, Gen.MacStatic.Mac.get_rx_delay, macRxDelay, h1, Rt.ck_u32,
+      Option.bind_some, Option.bind_eq_bind, Option.pure_def, Option.some.injEq, if_true, if_false, Bool.false_eq_true]
+    omega
   · simp only [frameOf, windowOf, Gen.MacStatic.Mac.get_rx_delay, macRxDelay, hj1, e1]; rfl
   · simp only [frameOf, windowOf, Gen.MacStatic.Mac.get_rx_delay, macRxDelay, hj2, e2]; rfl
 
